@@ -85,6 +85,7 @@ class Driver:
         L.append('#include <formak/gen.h>')
         L.append('#include <cstdio>')
         L.append('#include <cmath>')
+        L.append('#include <optional>')
         L.append('using namespace %s;' % NS)
         L.append('static void pv(int step, const char* what, const char* name, double v) { std::printf("V %d %s %s %.17g\\n", step, what, name, v); }')
         L.append('static void pm(int step, const char* what, const char* r, const char* c, double v) { std::printf("M %d %s %s %s %.17g\\n", step, what, r, c, v); }')
@@ -122,8 +123,17 @@ class Driver:
             for c in d.calib:      # Options constructor and accessor must agree (C13)
                 L.append('  if (cal.%s() != %s) std::printf("E calibration-accessor %s\\n");' % (c, lit(fl(d.calmap[c])), c))
         if self.kind == "ekf":
+            # the configuration constants compiled into the filter, bit for bit
+            L.append('  std::printf("C innovation_filtering %a\\n", (double)cpp::Config::innovation_filtering);')
+            L.append('  std::printf("C max_dt_sec %a\\n", (double)cpp::Config::max_dt_sec);')
             L.append('  ExtendedKalmanFilter ekf;')
             L.append('  StateAndVariance est;')
+            # a second filter object of the same generated type: whatever it is given must never show in the first (the
+            # specification's filter state -- estimate, stored innovations -- is per object)
+            L.append('  ExtendedKalmanFilter ghost;')
+            for key in sorted(d.sensors):
+                T = self.typename(key)
+                L.append('  std::optional<typename %s::InnovationT> last_%s;' % (T, T))
         else:
             L.append('  Model model;')
 
@@ -260,9 +270,27 @@ class Driver:
             for r in sorted(d.sensors[key]):
                 L.append('    pv(%d, "innov", "%s", (*inn)(iR_%s_%s, 0));' % (i, r, T, r))
             L.append('  }')
+            L.append('  last_%s = inn;' % T)
+            # the ghost filter takes a different reading from a different estimate ...
+            L.append('  { %sOptions gzo;' % T)
+            for n, v in z.items():
+                L.append('    gzo.%s = %s;' % (n, lit(v + 3.0)))
+            L.append('    %s grd(gzo); StateAndVariance gest = before;' % T)
+            L.append('    for (int gi = 0; gi < (int)State::rows; ++gi) gest.state.data(gi, 0) += 1.0;')
+            L.append('    ghost.sensor_model(%s); }' % self.rargs("gest", "grd"))
+            # ... and every innovation the first filter stored is still what it was (its own sensors' too)
+            self.check_innovation_store(i)
         L.append('  }')
 
+    def check_innovation_store(self, i):
+        for key in sorted(self.d.sensors):
+            T = self.typename(key)
+            self.lines.append('  { auto cur = ekf.innovations<%s>(); if (cur.has_value() != last_%s.has_value() || (cur.has_value() && !(*cur == *last_%s)))'
+                              ' std::printf("E stored-innovation-changed:%s:after-step-%d\\n"); }' % (T, T, T, key, i))
+
     def finish(self):
+        if self.kind == "ekf":
+            self.check_innovation_store(len(self.lines))
         self.lines.append('  return 0;')
         self.lines.append('}')
         return "\n".join(self.lines) + "\n"
@@ -293,6 +321,8 @@ def parse_driver_output(text):
             flags[(int(t[1]), t[2])] = int(t[3])
         elif t[0] == "E":
             errors.append(" ".join(t[1:]))
+        elif t[0] == "C":
+            vals.setdefault((-1, "config"), {})[t[1]] = float.fromhex(t[2])
         elif t[0] == "L":
             vals.setdefault((-1, "layout:" + t[1]), {})[t[2]] = int(t[3])
     return vals, flags, errors
